@@ -41,12 +41,23 @@ def run_shard(pid: str, tier: str, seed: int, shard: int, nshards: int) -> dict:
     try:
         if hasattr(mod, "setup"):
             mod.setup(ctx)
+        debug_every = getattr(mod, "DEBUG_LOGGING_EVERY", 5)
+        n_case = 0
         for key, case in mod.generate(ctx, rng):
             if not ctx.mine(key):
                 continue
+            n_case += 1
             ctx.current_case = case
+            # configuration dimension: every k-th case runs with msmart's loggers at DEBUG (into a null handler), which
+            # makes every debug-only code path (argument evaluation, isEnabledFor branches) part of the execution
+            ctx.debug_logging = bool(debug_every) and n_case % debug_every == 0
             try:
-                mod.run_case(ctx, case)
+                if ctx.debug_logging:
+                    with harness.debug_logging():
+                        mod.run_case(ctx, case)
+                    ctx.bump("cases-run-with-debug-logging")
+                else:
+                    mod.run_case(ctx, case)
             except Exception:  # noqa: BLE001 - a harness bug, never a verdict
                 ctx.harness_errors.append(traceback.format_exc()[-1500:])
                 if len(ctx.harness_errors) > 20:
@@ -169,7 +180,11 @@ def replay(pid: str, path: str) -> int:
     if hasattr(mod, "setup"):
         mod.setup(ctx)
     ctx.current_case = case
-    mod.run_case(ctx, case)
+    if rec.get("debug_logging"):
+        with harness.debug_logging():
+            mod.run_case(ctx, case)
+    else:
+        mod.run_case(ctx, case)
     if hasattr(mod, "finish"):
         mod.finish(ctx)
     if ctx.n_violations:
@@ -182,5 +197,19 @@ def replay(pid: str, path: str) -> int:
     return 0
 
 
+def _guarded_main() -> int:
+    """A crash of the machinery itself must never look like a verdict: exit 2 (inconclusive), never 1."""
+    try:
+        return main()
+    except SystemExit:
+        raise
+    except BaseException:  # noqa: BLE001
+        tb = traceback.format_exc()
+        pid = sys.argv[1] if len(sys.argv) > 1 else "?"
+        print(f"INCONCLUSIVE property={pid} reason=machinery-crash {tb.strip().splitlines()[-1][:300]}")
+        sys.stderr.write(tb)
+        return 2
+
+
 if __name__ == "__main__":
-    sys.exit(main())
+    sys.exit(_guarded_main())
